@@ -444,6 +444,36 @@ func specC02(tier string) *SeqSpec {
 		}
 		s.InitSweep = staleSweep(reads, changes)
 	}
+	// LCS over every pair of strings over {a,b} up to length 5 (quick) / 7 (thorough: length 6 and 7 against
+	// a sample): the matrix of the algorithm has branching runs only from length 4 on
+	{
+		var words []string
+		maxLen := 5
+		for l := 0; l <= maxLen; l++ {
+			for m := 0; m < 1<<l; m++ {
+				w := make([]byte, l)
+				for i := range w {
+					w[i] = "ab"[(m>>i)&1]
+				}
+				words = append(words, string(w))
+			}
+		}
+		long := []string{"aaabb", "baaba", "abaa", "bab", "abababab", "aabbaabb", "bbbaaabbb", "abbabaab", "ACGTACGTTGCA", "TGCATGCAACGT"}
+		for i, a := range words {
+			for j, b := range words {
+				if tier != "thorough" && len(a)+len(b) > 8 && (i+j)%3 != 0 {
+					continue
+				}
+				s.InitSweep = append(s.InitSweep, Op{Args: []string{"MSET", "k1", a, "k2", b}, Then: []Op{c("LCS", "k1", "k2"), c("LCS", "k1", "k2", "LEN"), c("LCS", "k1", "k2", "IDX"), c("LCS", "k1", "k2", "IDX", "MINMATCHLEN", "2", "WITHMATCHLEN")}})
+			}
+		}
+		for _, a := range long {
+			for _, b := range long {
+				s.InitSweep = append(s.InitSweep, Op{Args: []string{"MSET", "k1", a, "k2", b}, Then: []Op{c("LCS", "k1", "k2"), c("LCS", "k1", "k2", "LEN"), c("LCS", "k1", "k2", "IDX", "WITHMATCHLEN")}})
+			}
+		}
+		s.InitSweepEvery = 3 // from one of the three initial states
+	}
 	s.Depth = 2
 	if tier == "thorough" {
 		s.Depth = 3
